@@ -232,6 +232,29 @@ func StepContracts(pre *State, choice int) {
 			}
 		}
 	}
+	// C11: what a device answer does to the change being applied
+	if WithFaults && S.Faults > pre.Faults && P.DevCode != 0 {
+		for t := 0; t < NT; t++ {
+			for i := 0; i < NX; i++ {
+				if choice != ChProp+t*NX+i {
+					continue
+				}
+				verifrt.Cover("device-fault-in-apply")
+				code := P.DevCode
+				snap := S
+				snap.Faults = pre.Faults
+				if code == 14 || code == 1 || code == 4 || code == 7 {
+					// unreachable / slow device (Unavailable, Canceled, DeadlineExceeded) or superseded mastership
+					// (PermissionDenied): the change is not failed, it stays pending
+					verifrt.Assert(snap == *pre, "c11-unreachable-or-superseded-leaves-change-pending")
+				} else {
+					pb := &S.Props[t][i]
+					verifrt.Assert(pb.Apply.Present && pb.Apply.State == paFAILED && pb.ApplyFailed, "c11-refusal-fails-the-change")
+					verifrt.Assert(pb.ApplyFailType == failureClassOf(code), "c11-refusal-recorded-with-the-device-error-class")
+				}
+			}
+		}
+	}
 	// C01: a transaction enters Commit only if every one of its proposals is VALIDATED, never if one FAILED
 	for i := 0; i < NX; i++ {
 		ta, tb := &pre.Txs[i], &S.Txs[i]
@@ -259,11 +282,36 @@ func StepContracts(pre *State, choice int) {
 				verifrt.Assert(ta.Commit.Present && !ta.Abort.Present, "c05-proposal-commit-opened-only-in-transaction-commit-phase")
 			}
 		}
-		// C08/C11: a transaction turns FAILED only with a recorded failure
-		if ta.Exists && ta.State != txFAILED && tb.State == txFAILED {
-			verifrt.Assert(tb.Failed, "c11-failed-transaction-records-failure")
-		}
 	}
+}
+
+// failureClassOf: the Failure_Type that corresponds to a gRPC code (UNKNOWN where no class exists)
+func failureClassOf(code int32) int32 {
+	switch code {
+	case 1:
+		return int32(configapi.Failure_CANCELED)
+	case 5:
+		return int32(configapi.Failure_NOT_FOUND)
+	case 6:
+		return int32(configapi.Failure_ALREADY_EXISTS)
+	case 16:
+		return int32(configapi.Failure_UNAUTHORIZED)
+	case 7:
+		return int32(configapi.Failure_FORBIDDEN)
+	case 9:
+		return int32(configapi.Failure_CONFLICT)
+	case 3:
+		return int32(configapi.Failure_INVALID)
+	case 14:
+		return int32(configapi.Failure_UNAVAILABLE)
+	case 12:
+		return int32(configapi.Failure_NOT_SUPPORTED)
+	case 4:
+		return int32(configapi.Failure_TIMEOUT)
+	case 13:
+		return int32(configapi.Failure_INTERNAL)
+	}
+	return int32(configapi.Failure_UNKNOWN)
 }
 
 func txTargetsOf(st *State, i int) [NT]bool {
